@@ -2,7 +2,7 @@ HOOK_COMMITS = ['c1c434b', '878b954']
 NOTES = ('All checks are driven by bin/check <ID> --tier quick|thorough; exit 0/1/2 as described in DESIGN.md 2.4. '
          'known_findings.json lists recorded defects and fixed ones.')
 _pending = 'check not built yet in this revision (see DESIGN.md); will be claimed when its specification and harness exist'
-for _p in ['C02','C03','C04','C05','C06','C07','C08','C10','C11','C13','C15','C18','C19']:
+for _p in ['C02','C03','C04','C05','C06','C07','C08','C10','C11','C13','C18','C19']:
     NA[_p] = _pending
 NA['C01'] = ('power balance needs numerical integration of the reported pattern over the sphere and a 1.5 % physical '
              'tolerance of the true kernel: numeric accuracy with no discrete content, nothing a TLA+ specification can decide (DESIGN.md section 5)')
@@ -73,3 +73,16 @@ check('C20', 'fault_enumeration',
       'time and committed; a predicted diagnostic that turns out to be a legitimate report (or vice versa) is not a violation because the '
       'property allows either. Unwritable output paths (environment faults) are outside the domain.',
       'TLC enumeration of fault scenarios on Cmdline.tla + replay of every scenario through main()', 'DESIGN.md 4 C20')
+
+check('C15', 'model_checking',
+      'spec/OptionFile.tla transcribes the option writers (as_cmdline) and the reader (main) at the level of options, tags, indices and order '
+      '(objects of three kinds with explicit / automatic tags, taper, sources in both forms with unit and other voltages, lumped loads of the '
+      'four kinds with every attachment form, tagged and global skin-effect loads). TLC checks Accepted, RoundTrip and FixPoint on the design '
+      'variant and dumps every command line of the variant matching the code with its predicted verdict. Every command line is concretised '
+      '(chained and separate wire layouts, transformations, scaling, five media forms), built by the real main(), written by as_cmdline() '
+      '(plain and load_by_geo), read back by main(), and the two models are compared by projection; the re-written option file must equal '
+      'the first; a sampled fraction is solved and the feed impedances compared (3e-4).',
+      'Trusted: TLC, the concretiser and projection in harness/c15.py. Geometry transformations, scaling, media forms and numeric values are '
+      'seeded choices of the concretiser, not enumerated by TLC. One recorded defect (load numbering when loads are attached out of kind order) '
+      'is a known finding; TLC produces its counterexample on the variant LoadsInKindOrder = FALSE.',
+      'TLC model checking of OptionFile.tla + write/read-back replay through main()', 'DESIGN.md 4 C15')
